@@ -98,7 +98,7 @@ CONDITIONS = [
               'mutation = any single-point mutation of the quick palettes at '
               'any other site'},
     {'fn': 'mutants', 'slices': pipeline.ALL_SLICES_A,
-     'quick_slices': pipeline.QUICK_SLICES_A, 'quick': 110, 'thorough': 300,
+     'quick_slices': pipeline.QUICK_SLICES_A, 'quick': 160, 'thorough': 300,
      'bound': pipeline.MUTANT_BOUND},
     {'fn': 'mutants_reach',
      'slices': [pipeline.slice_for('plain', 0, 2),
